@@ -2,6 +2,7 @@
 import gens
 import vlib
 import gens_algos
+import gens_slow
 from props.common import TRUSTED_BASE, ASSUMPTIONS
 
 ID = "C01"
@@ -30,16 +31,19 @@ def feature_sets(tier):
 
 def streams(tier, rng, fs, profile):
     n = 250 if tier == "quick" else 4000
-    return [
+    return ([
         ("g-hard", gens.float_parse_hard_ops(rng, fs, [10], n, rich=True, tails=8 if tier == "quick" else 120)),
         ("g-ties", gens.exact_tie_ops(rng, fs, per_q=6 if tier == "quick" else 60)),
         ("g-exp", gens.float_exp_ops(rng, fs, [10])),
         ("g-random", gens.float_random_ops(rng, fs, [10], 1500 if tier == "quick" else 30000)),
     ] + gens_algos.algo_streams(rng, fs, tier)   # component level: compute_float / lemire / bellerophon / binary / fast path
+        + gens_slow.slow_streams(rng, fs, tier, [10]))   # component level: slow_radix (big-integer slow path) fed by the moderate path
 
 
 def nontrivial(op, res):
     t = res.split(" ")
+    if op.split(" ")[0] == "sl":
+        return t[0] == "slow" and t[1] not in ("0",)
     if op.split(" ")[0] in ("cf", "lm", "bel", "bin", "sbin", "fp"):
         return t[0] in ("ok", "inv", "some") and (len(t) < 2 or t[1] not in ("0",))
     return t[0] == "ok" and t[1] not in ("0", "80000000", "8000000000000000", "nan")
